@@ -21,14 +21,14 @@ WORKERS = [1, 2, 3, 5, 8, 16]
 
 
 def plan(tier):
-    return {"n": 10 if tier == "quick" else 40, "floor": 10 if tier == "quick" else 20, "samples": 3}
+    return {"n": 10 if tier == "quick" else 24, "floor": 10 if tier == "quick" else 20, "samples": 3}
 
 
 def rule(tier):
     return ("case = one package pair (12-24 libraries, every second as tar) x %d worker counts x %d perturbation seeds on the plain build "
             "(differential) + 2 runs on the TSan build; evaluations = runs compared with the sequential reference + TSan runs; "
             "distinct_nontrivial = number of distinct task-completion orders observed in the event logs"
-            % (len(WORKERS), 2 if tier == "quick" else 6))
+            % (len(WORKERS), 2 if tier == "quick" else 3))
 
 
 def completion_order(path):
@@ -69,7 +69,7 @@ def case(ctx, i):
     if run.abnormal(ref):
         wl.abnormal_violation(r, ref, "abipkgdiff --no-parallel [%s]" % what)
         return r
-    nseeds = 2 if ctx.tier == "quick" else 6
+    nseeds = 2 if ctx.tier == "quick" else 3
     orders = set()
     for w in WORKERS:
         for s in range(nseeds):
